@@ -768,16 +768,26 @@ class _Ctx:
             gens.append((R().visit(copy.deepcopy(g.target)), it, [R().visit(copy.deepcopy(c)) for c in g.ifs]))
         body = [ast.Expr(value=ast.Call(func=ast.Attribute(value=ast.Name(id=name, ctx=ast.Load()), attr='append', ctx=ast.Load()),
                                         args=[R().visit(copy.deepcopy(comp.elt))], keywords=[]))]
-        for tgt, it, ifs in reversed(gens):
+        # loops are identified by their line: the generators of a one-line comprehension would all be "the loop at line n"
+        glines = [getattr(g.target, 'lineno', s.lineno) for g in comp.generators]
+        if len(set(glines)) != len(glines):
+            if len(comp.generators) > 1:
+                return None
+        fors = []
+        for (tgt, it, ifs), gl in zip(reversed(gens), reversed(glines)):
             for c in reversed(ifs):
                 body = [ast.If(test=c, body=body, orelse=[])]
-            body = [ast.For(target=tgt, iter=it, body=body, orelse=[], type_comment=None)]
+            fnode = ast.For(target=tgt, iter=it, body=body, orelse=[], type_comment=None)
+            fors.append((fnode, gl))
+            body = [fnode]
         out = [ast.Assign(targets=[ast.Name(id=name, ctx=ast.Store())], value=ast.List(elts=[], ctx=ast.Load()))] + body
         if isinstance(s, ast.Return):
             out.append(ast.Return(value=ast.Name(id=name, ctx=ast.Load())))
         for o in out:
             ast.copy_location(o, s)
             ast.fix_missing_locations(o)
+        for fnode, gl in fors:
+            fnode.lineno = gl
         return out
 
     def _is_pkg_generator_call(self, e: ast.expr) -> bool:
@@ -3539,12 +3549,14 @@ class _Ctx:
                 and isinstance(st.env[f.id], (Attr, Sub, App)):
             # a local that holds a bound method read from somewhere else (a field, a table): its receiver is whatever it was bound to
             recv = Attr(st.env[f.id], '__self__')
-        if tgt.kind == 'pkg' and len(tgt.funcs) == 1 and kw and '**' not in kw and tgt.via != 'ctor' and \
+        if tgt.kind == 'pkg' and len(tgt.funcs) == 1 and kw and '**' not in kw and \
                 not any(isinstance(a, App) and a.fn == '*' for a in args):
             # f(name=a, other=b) for leading positional parameters is f(a, b): rules read positions
             c0 = tgt.funcs[0]
             ps = list(c0.params)
-            if c0.cls is not None and not c0.is_static and c0.parent is None and ps and tgt.via in ('method', 'super', 'byname', 'local', 'static', 'class', ''):
+            if tgt.via == 'ctor':
+                ps = ps[1:]         # Cls(name=a): the constructor's parameters after the receiver
+            elif c0.cls is not None and not c0.is_static and c0.parent is None and ps and tgt.via in ('method', 'super', 'byname', 'local', 'static', 'class', ''):
                 if not (isinstance(f, ast.Name)):
                     ps = ps[1:] if (not c0.is_static) else ps
             moved = list(args)
